@@ -191,7 +191,9 @@ elif cmd == 'ingestn':
     meta = {'id': sid, 'kind': 'neutral', 'breaks': 'none (preserves ' + sid[:3] + ')', 'confirmed': bool(ok), 'confirmation': conf, 'what': '', 'needs': '', 'ran': ['tools_seeded.py ingestn ' + sid]}
     if not ok:
         json.dump(meta, open(os.path.join(d, 'meta.json'), 'w'), indent=1); print('NOT CONFIRMED'); sys.exit(1)
-    meta['checks'] = run_checks_scratch(sid, tier, related_props(sid))
+    rel = related_props(sid)
+    if os.environ.get('SEED_MAXREL'): rel = rel[:1 + int(os.environ['SEED_MAXREL'])]
+    meta['checks'] = run_checks_scratch(sid, tier, rel)
     json.dump(meta, open(os.path.join(d, 'meta.json'), 'w'), indent=1)
     print(json.dumps(meta['checks'], indent=1))
 elif cmd == 'run':
